@@ -26,9 +26,9 @@ mv $DEMO /tmp/seed_demo_hold.go
 mv /tmp/seed_demo_hold.go $DEMO
 echo "suite rc=$RC_SUITE"
 echo "== demo without change (must PASS)"
-git stash -q
+git apply -R $OUT/patch.diff || echo "REVERSE-APPLY-FAILED"
 timeout 300 go test -vet=off -count=1 -run 'TestSeedDemo' $PKG > /tmp/seed_demo_without.log 2>&1; RC_WITHOUT=$?
-git stash pop -q
+git apply $OUT/patch.diff || echo "RE-APPLY-FAILED"
 tail -5 /tmp/seed_demo_without.log; echo "rc=$RC_WITHOUT"
 echo "== verdict"
 if [ $RC_WITH -ne 0 ] && [ $RC_SUITE -eq 0 ] && [ $RC_WITHOUT -eq 0 ]; then echo CONFIRMED; else echo REJECTED; fi
